@@ -110,52 +110,111 @@ def f32Decode (bits : Nat) : Option (Nat × Int) :=
 
 def natLog2 (n : Nat) : Nat := Nat.log2 n
 
-/-- round the positive rational `num / den * 2^e` to a double: returns (m, e') with 2^52 ≤ m < 2^53 and
-    value = m * 2^e' (round to nearest even; normal range assumed) -/
-def roundToDouble (num den : Nat) (e : Int) : Option (Nat × Int) :=
-  if num = 0 ∨ den = 0 then none else
-  -- scale so that the quotient has at least 55 significant bits
+/-- round the positive rational `num / den * 2^e` to a binary float with `p` significant bits: returns (m, e')
+    with 2^(p-1) ≤ m < 2^p and value = m * 2^e' (round to nearest even; normal range assumed) -/
+def roundTo (p : Nat) (num den : Nat) (e : Int) : Option (Nat × Int) :=
+  if num = 0 ∨ den = 0 ∨ p = 0 then none else
+  -- scale so that the quotient has at least p + 2 significant bits
   let ln := natLog2 num
   let ld := natLog2 den
-  let up : Nat := if ld + 56 > ln then ld + 56 - ln else 0
+  let up : Nat := if ld + p + 3 > ln then ld + p + 3 - ln else 0
   let n2 := num * 2 ^ up
   let q := n2 / den
   let r := n2 % den
-  let lq := natLog2 q                      -- q has lq+1 bits, lq ≥ 55
-  let drop := lq + 1 - 53
+  let lq := natLog2 q                      -- q has lq+1 bits, lq ≥ p + 2
+  let drop := lq + 1 - p
   let m := q / 2 ^ drop
   let restQ := q % 2 ^ drop
   let half := 2 ^ (drop - 1)
-  -- sticky: remainder of the division counts as "more than zero"
+  -- sticky: a non-zero remainder of the division counts as "more than zero"
   let gt := restQ > half ∨ (restQ = half ∧ r > 0)
   let eq := restQ = half ∧ r = 0
   let m' := if gt then m + 1 else if eq then (if m % 2 = 1 then m + 1 else m) else m
   let e' : Int := e - up + drop
-  if m' = 2 ^ 53 then some (2 ^ 52, e' + 1) else some (m', e')
+  if m' = 2 ^ p then some (2 ^ (p - 1), e' + 1) else some (m', e')
 
-/-- `QuantizeMultiplier` of a double `m * 2^e` (2^52 ≤ m < 2^53): frexp gives q = m / 2^53, shift = e + 53;
-    q_fixed = round-half-away(q * 2^31) = (m + 2^21) >> 22 -/
-def quantizeMultiplierOfDouble (m : Nat) (e : Int) : Int × Int :=
-  let q := (m + 2097152) / 4194304
-  let shift := e + 53
+/-- `QuantizeMultiplier` of a positive double `m * 2^e` given with `p ≤ 53` significant bits:
+    frexp gives q = m / 2^p, shift = e + p; q_fixed = round-half-away(q * 2^31) -/
+def quantizeMultiplierOf (p : Nat) (m : Nat) (e : Int) : Int × Int :=
+  -- bring to 53 bits (exact)
+  let m53 := m * 2 ^ (53 - p)
+  let e53 := e - ((53 - p : Nat) : Int)
+  let q := (m53 + 2097152) / 4194304
+  let shift := e53 + 53
   let (q, shift) := if q = 2147483648 then (q / 2, shift + 1) else (q, shift)
   if shift < -31 then (0, 0) else ((q : Int), shift)
 
-/-- multiplier and shift for the real multiplier `s1 * s2 / s3` computed in double from three float32
-    scales (the int8 convolution path of the reference) -/
-def quantizeMultiplierConv (s1 s2 s3 : Nat) : Option (Int × Int) := do
+/-- `double(s1) * double(s2) / double(s3)` (signed 8/16-bit convolutions) -/
+def qmConvDouble (s1 s2 s3 : Nat) : Option (Int × Int) := do
   let (m1, e1) ← f32Decode s1
   let (m2, e2) ← f32Decode s2
   let (m3, e3) ← f32Decode s3
-  -- the product of two 24-bit mantissas is exact in double
-  let (m, e) ← roundToDouble (m1 * m2) m3 (e1 + e2 - e3)
-  some (quantizeMultiplierOfDouble m e)
+  let (m, e) ← roundTo 53 (m1 * m2) m3 (e1 + e2 - e3)       -- the product of two 24-bit mantissas is exact in double
+  some (quantizeMultiplierOf 53 m e)
 
-/-- `s1 / s2` in double (requantise) -/
-def quantizeMultiplierRatio (s1 s2 : Nat) : Option (Int × Int) := do
+/-- `double(float(s1 * s2)) / double(s3)` (uint8 convolutions, fully connected) -/
+def qmConvFloatProduct (s1 s2 s3 : Nat) : Option (Int × Int) := do
   let (m1, e1) ← f32Decode s1
   let (m2, e2) ← f32Decode s2
-  let (m, e) ← roundToDouble m1 m2 (e1 - e2)
-  some (quantizeMultiplierOfDouble m e)
+  let (m3, e3) ← f32Decode s3
+  let (mp, ep) ← roundTo 24 (m1 * m2) 1 (e1 + e2)
+  let (m, e) ← roundTo 53 mp m3 (ep - e3)
+  some (quantizeMultiplierOf 53 m e)
+
+/-- `double(s1) / double(s2)` (requantise) -/
+def qmRatioDouble (s1 s2 : Nat) : Option (Int × Int) := do
+  let (m1, e1) ← f32Decode s1
+  let (m2, e2) ← f32Decode s2
+  let (m, e) ← roundTo 53 m1 m2 (e1 - e2)
+  some (quantizeMultiplierOf 53 m e)
+
+/-- `float(s1 / s2)` widened to double (RELU with rescale, LEAKY_RELU identity) -/
+def qmRatioFloat (s1 s2 : Nat) : Option (Int × Int) := do
+  let (m1, e1) ← f32Decode s1
+  let (m2, e2) ← f32Decode s2
+  let (m, e) ← roundTo 24 m1 m2 (e1 - e2)
+  some (quantizeMultiplierOf 24 m e)
+
+/-- `float(float(s1 * s2) / s3)` widened to double (MUL, LEAKY_RELU alpha) -/
+def qmMulFloat (s1 s2 s3 : Nat) : Option (Int × Int) := do
+  let (m1, e1) ← f32Decode s1
+  let (m2, e2) ← f32Decode s2
+  let (m3, e3) ← f32Decode s3
+  let (mp, ep) ← roundTo 24 (m1 * m2) 1 (e1 + e2)
+  let (m, e) ← roundTo 24 mp m3 (ep - e3)
+  some (quantizeMultiplierOf 24 m e)
+
+/-- the three multipliers of ADD / SUB: `s1 / (2 max)`, `s2 / (2 max)`, `(2 max) / (2^leftShift * so)` in double -/
+def qmAdd (s1 s2 so : Nat) (leftShift : Nat) : Option ((Int × Int) × (Int × Int) × (Int × Int)) := do
+  let (m1, e1) ← f32Decode s1
+  let (m2, e2) ← f32Decode s2
+  let (mo, eo) ← f32Decode so
+  -- larger of the two input scales (positive floats compare like their bit patterns)
+  let (mx, ex) := if s1 ≥ s2 then (m1, e1) else (m2, e2)
+  let (a, ea) ← roundTo 53 m1 mx (e1 - ex - 1)
+  let (b, eb) ← roundTo 53 m2 mx (e2 - ex - 1)
+  let (c, ec) ← roundTo 53 mx mo (ex + 1 - eo - leftShift)
+  some (quantizeMultiplierOf 53 a ea, quantizeMultiplierOf 53 b eb, quantizeMultiplierOf 53 c ec)
+
+/-- `round(float(f) / scale)` with float32 division and round-half-away-from-zero, for f = num (a small
+    non-negative integer); the caller negates for negative f -/
+def quantizeSmall (f : Nat) (scale : Nat) : Option Int := do
+  if f = 0 then some 0 else
+  let (ms, es) ← f32Decode scale
+  let (m, e) ← roundTo 24 f ms (-es)
+  if e ≥ 0 then some ((m * 2 ^ e.toNat : Nat) : Int)
+  else
+    let k := (-e).toNat
+    some (((m + 2 ^ (k - 1)) / 2 ^ k : Nat) : Int)
+
+/-- `CalculateActivationRangeQuantized` for fused activation code `faf` (0 none, 1 RELU, 2 RELU_N1_TO_1, 3 RELU6) -/
+def activationRange (faf : Nat) (scale : Nat) (zp lo hi : Int) : Option (Int × Int) := do
+  if faf = 0 then some (lo, hi)
+  else if faf = 1 then some (max lo zp, hi)
+  else if faf = 3 then some (max lo zp, min hi (zp + (← quantizeSmall 6 scale)))
+  else if faf = 2 then
+    let q ← quantizeSmall 1 scale
+    some (max lo (zp - q), min hi (zp + q))
+  else none
 
 end VelaVerif.Requant
